@@ -4,6 +4,7 @@ import LentilVerif.Lemmas.Field
 import LentilVerif.Lemmas.Reduce
 import LentilVerif.Lemmas.ReduceZ
 import LentilVerif.Gen.FieldMerge
+import LentilVerif.Gen.FieldDispatch
 import Mathlib.Algebra.Ring.Defs
 import Mathlib.Tactic.SplitIfs
 import Mathlib.Algebra.GroupWithZero.Defs
@@ -154,22 +155,8 @@ theorem mul_sem (a b : Fld K) (hab : (a.size1 && b.size1) = false)
     cases b.extent.inb r c <;> simp
   · simp [h1, h2] at hab
 
-/-- two one-element fields: the documented rule — the constants multiply when the offsets agree, and the product is
-empty otherwise -/
-theorem mul_scalar_scalar (a b : Fld K) (hab : (a.size1 && b.size1) = true) :
-    a.mul b = if a.o0 = b.o0 ∧ a.o1 = b.o1
-      then some { arr := { s0 := 1, s1 := 1, get := fun _ _ => a.arr.get 0 0 * b.arr.get 0 0 }, o0 := a.o0, o1 := a.o1 }
-      else none := by
-  unfold Fld.mul
-  simp only [hab, if_true]
-  by_cases h : a.o0 = b.o0 ∧ a.o1 = b.o1
-  · simp [h]
-  · have : (decide (a.o0 = b.o0) && decide (a.o1 = b.o1)) = false := by
-      rw [Bool.eq_false_iff]; intro hh; simp only [Bool.and_eq_true, decide_eq_true_eq] at hh; exact h hh
-    simp [this, h]
-
 /-- non-vacuity of `mul_sem` (one one-element operand, far away: it still acts as a constant) and of
-`mul_scalar_scalar` (two one-element operands at equal / different offsets) -/
+the documented rule for two one-element operands (equal / different offsets; `Fld.mul_scalar_scalar` in Lemmas/Field.lean) -/
 example : ((⟨⟨1, 1, fun _ _ => (3 : Int)⟩, 7, -7⟩ : Fld Int).size1 && Ex.B.size1) = false ∧
     ((⟨⟨1, 1, fun _ _ => (3 : Int)⟩, 7, -7⟩ : Fld Int).mul Ex.B).map (fun p => (p.extent, p.emb 0 0)) =
       some (Ex.B.extent, 3 * Ex.B.emb 0 0) := by decide
@@ -178,15 +165,39 @@ example : ((⟨⟨1, 1, fun _ _ => (3 : Int)⟩, 2, 2⟩ : Fld Int).mul ⟨⟨1,
 /-- array × array on a partial overlap: `A` and `B` share exactly the pixel (0, 0) -/
 example : (Ex.A.mul Ex.B).map (fun p => (p.extent, p.emb 0 0)) = some (⟨0, 0, 0, 0⟩, 4 * 10) := by decide
 
+/-- **the product is empty exactly when the operands have no common pixel**, and otherwise it occupies exactly the set of
+common pixels (array × array, positive shapes) — `none` and "a field of zeros" are distinguished -/
+theorem mul_empty_iff (a b : Fld K) (ha : 0 < a.arr.s0 ∧ 0 < a.arr.s1) (hb : 0 < b.arr.s0 ∧ 0 < b.arr.s1) :
+    a.mulArr b = none ↔ ¬ ∃ r c, a.extent.mem r c ∧ b.extent.mem r c := by
+  rw [← intersect_iff a.extent b.extent (a.extent_valid ha) (b.extent_valid hb)]
+  unfold Fld.mulArr
+  by_cases h : intersect a.extent b.extent = true
+  · simp [h]
+  · simp [h]
+
+theorem mul_extent (a b p : Fld K) (h : a.mulArr b = some p) (r c : Int) :
+    p.extent.mem r c ↔ a.extent.mem r c ∧ b.extent.mem r c := by
+  unfold Fld.mulArr at h
+  by_cases hi : intersect a.extent b.extent = true
+  · simp only [hi, if_true, Option.some.injEq] at h
+    subst h
+    rw [← intersection_mem]
+    show (arrayExtent _ _ _ _).mem r c ↔ _
+    rw [mulArr_extent a.extent b.extent hi]
+  · simp [hi] at h
+
+/-- `A` and `B` share exactly the pixel (0, 0); `A` and `C` share none -/
+example : (Ex.A.mulArr Ex.B).map (fun p => p.extent) = some ⟨0, 0, 0, 0⟩ ∧ (Ex.A.mulArr Ex.C).isNone = true := by decide
+
 /-- two one-element fields **read as infinite constants** (`Fld.sem`), the property's literal reading: proved only for
 equal offsets, where the product is the one-element field holding the product of the constants.
-GAP (named in the harness `UNPROVEN`): for different offsets the code returns the empty product (`mul_scalar_scalar`,
+GAP (named in the harness `UNPROVEN`): for different offsets the code returns the empty product (`Fld.mul_scalar_scalar`,
 the rule documented in `Field.__mul__`), whose embedding is 0 and not the constant `a·b` — the documented rule is a scope
 cut of the statement there, not a consequence of it. -/
 theorem mul_scalar_scalar_sem_partial (a b : Fld K) (hab : (a.size1 && b.size1) = true)
     (ho : a.o0 = b.o0 ∧ a.o1 = b.o1) (r c : Int) :
     ∃ p, a.mul b = some p ∧ p.sem r c = a.sem r c * b.sem r c := by
-  rw [mul_scalar_scalar a b hab, if_pos ho]
+  rw [Fld.mul_scalar_scalar a b hab, if_pos ho]
   refine ⟨_, rfl, ?_⟩
   rw [Bool.and_eq_true] at hab
   have h3 : (Fld.mk (Arr.mk 1 1 fun _ _ => a.arr.get 0 0 * b.arr.get 0 0) a.o0 a.o1).size1 = true := rfl
@@ -227,6 +238,26 @@ theorem mul_translate (a b : Fld K) (d0 d1 : Int) :
 example : ((⟨⟨1, 1, fun _ _ => (3 : Int)⟩, 100000, 100000⟩ : Fld Int).mul ⟨⟨1, 1, fun _ _ => 5⟩, 100000, 100001⟩).isNone = true ∧
     ((⟨⟨1, 1, fun _ _ => (3 : Int)⟩, 100000, 100000⟩ : Fld Int).mul ⟨⟨1, 1, fun _ _ => 5⟩, 100000, 100000⟩).map
       (fun p => (p.extent, p.emb 100000 100000)) = some (⟨100000, 100000, 100000, 100000⟩, 15) := by decide
+
+/-- **the dispatch of `Field.__mul__` / `_mul_scalar`, as generated from the source** (`Gen.mulBothOne` from
+`self.size == 1 and other.size == 1`, `Gen.mulScalarSame` from `np.array_equal(self.offset, other.offset)`), is the pair of
+guards the hand model `Fld.mul` branches on: both operands one-element, and offsets equal **exactly** in both components —
+an edit of either test in the source changes the generated definition and breaks this theorem -/
+theorem mul_dispatch_spec (a b : Fld K) (ha : 0 < a.arr.s0 ∧ 0 < a.arr.s1) (hb : 0 < b.arr.s0 ∧ 0 < b.arr.s1) :
+    Gen.mulBothOne (a.arr.s0 * a.arr.s1) (b.arr.s0 * b.arr.s1) = (a.size1 && b.size1) ∧
+    Gen.mulScalarSame a.o0 a.o1 b.o0 b.o1 = (decide (a.o0 = b.o0) && decide (a.o1 = b.o1)) := by
+  have key : ∀ x y : Int, 0 < x → 0 < y → (x * y = 1 ↔ x = 1 ∧ y = 1) := by
+    intro x y hx hy
+    constructor
+    · intro h
+      exact ⟨Int.eq_one_of_mul_eq_one_right (Int.le_of_lt hx) h, Int.eq_one_of_mul_eq_one_left (Int.le_of_lt hy) h⟩
+    · rintro ⟨rfl, rfl⟩; rfl
+  refine ⟨?_, rfl⟩
+  simp only [Gen.mulBothOne, Fld.size1]
+  rw [Bool.eq_iff_iff]
+  simp only [Bool.and_eq_true, decide_eq_true_eq, key _ _ ha.1 ha.2, key _ _ hb.1 hb.2]
+example : Gen.mulBothOne 1 1 = true ∧ Gen.mulBothOne 1 6 = false ∧ Gen.mulScalarSame 100000 7 100000 7 = true ∧
+    Gen.mulScalarSame 100000 7 100001 7 = false := by decide
 
 end translate
 
@@ -339,6 +370,12 @@ theorem reduce_fixed_point_iff (gs : List (Group K)) :
 example : intersect ⟨0, 2, 0, 2⟩ ⟨2, 4, 0, 2⟩ = true ∧ intersect ⟨0, 2, 0, 2⟩ ⟨3, 5, 0, 2⟩ = false ∧
     intersect ⟨0, 2, 0, 2⟩ ⟨2, 4, 2, 4⟩ = true := by decide
 
+/-- **the merge step of `_disjoint`, as recognised in the source** (`Gen.disjointStep`: which group of the pair `(m, n)` is
+kept, whose fields are appended, whose extent is recomputed with `boundary`, which is popped; m = 0, n = 1): keep `m`,
+append `n`'s fields, recompute `m`, pop `n` — exactly the step of the model (`(gs.set m (mergeGroups gm gk)).eraseIdx k`,
+`disjoint_succ_some`), scanned in `combinations` order and restarted after each merge -/
+theorem disjoint_step_spec : Gen.disjointStep = (0, 1, 0, 1) := rfl
+
 /-- the group invariant (`Group.wf`: member fields of positive shape; a singleton group caches its field's extent; a
 group of ≥ 2 fields caches `boundary` of its members) holds initially and is preserved by every step of `_disjoint` -/
 theorem reduce_group_invariant (fs : List (Fld K)) (hpos : ∀ f ∈ fs, 0 < f.arr.s0 ∧ 0 < f.arr.s1) (fuel : Nat) :
@@ -348,12 +385,11 @@ theorem reduce_group_invariant (fs : List (Fld K)) (hpos : ∀ f ∈ fs, 0 < f.a
   obtain ⟨f, hf, rfl⟩ := List.mem_map.mp hg
   exact Group.single_wf f (hpos f hf)
 
-/-- the step itself: merging two well-formed groups gives a well-formed group (≥ 2 fields, extent = `boundary`) -/
+/-- the step itself: merging two well-formed groups gives a well-formed group of ≥ 2 fields (so `Group.wf` pins its cached extent to `boundary` of the members) -/
 theorem reduce_step_invariant (a b : Group K) (ha : a.wf) (hb : b.wf) :
-    (mergeGroups a b).wf ∧ 2 ≤ (mergeGroups a b).fields.length ∧
-    (mergeGroups a b).extent = boundaryL ((mergeGroups a b).fields.map Fld.extent) := by
+    (mergeGroups a b).wf ∧ 2 ≤ (mergeGroups a b).fields.length := by
   have h := mergeGroups_wf a b ha hb
-  refine ⟨h, ?_, rfl⟩
+  refine ⟨h, ?_⟩
   rcases h.ext with ⟨f, hf, _⟩ | ⟨hl, _⟩
   · have h1 := List.length_pos_of_ne_nil ha.ne_nil
     have h2 := List.length_pos_of_ne_nil hb.ne_nil
@@ -423,6 +459,39 @@ theorem reduce_total (fs : List (Fld K)) (hpos : ∀ f ∈ fs, 0 < f.arr.s0 ∧ 
   rw [sumList_eq_sum, sumList_eq_sum, hemb r c]
   exact (disjoint_total (fun f => f.emb r c) fs.length _).trans (single_total _ fs)
 
+/-- **totality of `reduce` from the inputs alone**: for positive shapes, if at most one input field occupies exactly the
+origin pixel, no merge can hit the single-origin-pixel corner and every element of `reduce fs` is a field -/
+theorem reduce_defined (fs : List (Fld K)) (hpos : ∀ f ∈ fs, 0 < f.arr.s0 ∧ 0 < f.arr.s1)
+    (h1 : (fs.filter fun f => decide (f.extent = ⟨0, 0, 0, 0⟩)).length ≤ 1) :
+    ∃ out : List (Fld K), reduce fs = out.map some :=
+  exists_eq_map_some _ (reduce_isSome_of_origin_le_one fs hpos h1)
+
+/-- **reduce, unconditionally, for collections with at most one field on the origin pixel** (in particular every
+collection of multi-element arrays, `reduce_arrays`): the result is a list of fields, pairwise sharing no pixel, whose
+embeddings sum to the sum of the inputs at every pixel of the plane — no hypothesis on the output -/
+theorem reduce_spec (fs : List (Fld K)) (hpos : ∀ f ∈ fs, 0 < f.arr.s0 ∧ 0 < f.arr.s1)
+    (h1 : (fs.filter fun f => decide (f.extent = ⟨0, 0, 0, 0⟩)).length ≤ 1) :
+    ∃ out : List (Fld K), reduce fs = out.map some ∧
+      out.Pairwise (fun a b => ∀ r c, ¬(a.extent.inb r c = true ∧ b.extent.inb r c = true)) ∧
+      ∀ r c, sumList out (fun f => f.emb r c) = sumList fs (fun f => f.emb r c) := by
+  obtain ⟨out, hout⟩ := reduce_defined fs hpos h1
+  exact ⟨out, hout, reduce_pairwise_disjoint fs hpos out hout, fun r c => reduce_total fs hpos out hout r c⟩
+
+/-- the class every wavefront built from array planes is in: **all fields have more than one element** -/
+theorem reduce_arrays (fs : List (Fld K)) (hpos : ∀ f ∈ fs, 0 < f.arr.s0 ∧ 0 < f.arr.s1)
+    (hmulti : ∀ f ∈ fs, f.size1 = false) :
+    ∃ out : List (Fld K), reduce fs = out.map some ∧
+      out.Pairwise (fun a b => ∀ r c, ¬(a.extent.inb r c = true ∧ b.extent.inb r c = true)) ∧
+      ∀ r c, sumList out (fun f => f.emb r c) = sumList fs (fun f => f.emb r c) := by
+  apply reduce_spec fs hpos
+  have : (fs.filter fun f => decide (f.extent = ⟨0, 0, 0, 0⟩)) = [] := by
+    rw [List.filter_eq_nil_iff]
+    intro f hf
+    simpa using extent_ne_origin_of_not_size1 f (hpos f hf) (hmulti f hf)
+  rw [this]; exact Nat.zero_le _
+/-- non-vacuity: the example collection consists of multi-element fields -/
+example : ∀ f ∈ [Ex.A, Ex.C, Ex.B], (0 < f.arr.s0 ∧ 0 < f.arr.s1) ∧ f.size1 = false := by decide
+
 /-- `reduce` never returns more fields than it was given, and returns one field per final group -/
 theorem reduce_length_le (fs : List (Fld K)) : (reduce fs).length ≤ fs.length := by
   rw [reduce_eq, List.length_map]
@@ -490,25 +559,63 @@ example : (mergeZ [(⟨⟨⟨1, 1, fun _ _ => (2 : Int)⟩, 0, 0⟩, true⟩ : Z
     (mergeZ [(⟨⟨⟨1, 1, fun _ _ => (2 : Int)⟩, 0, 0⟩, true⟩ : ZFld Int), ⟨⟨⟨1, 1, fun _ _ => 3⟩, 0, 0⟩, false⟩]).isNone = true := by
   decide
 
-/-- public `merge(a, b, enforce_overlap)`: refused exactly when overlap is enforced and the extents do not intersect;
-otherwise it is `_merge((a, b))`, hence (by `mergeZ_emb`) the sum of the two embeddings -/
-theorem merge_public_spec [Add K] [Zero K] (a b : ZFld K) (enforce : Bool) :
-    mergePublic a b enforce =
-      if enforce = true ∧ intersect a.fld.extent b.fld.extent = false then none else mergeZ [a, b] := by
-  unfold mergePublic
-  cases enforce <;> cases intersect a.fld.extent b.fld.extent <;> simp
+/-- **public `merge(a, b, enforce_overlap)`**, in terms of pixels and embeddings (positive shapes): an accepted merge is the
+sum of the two embeddings and — when overlap is enforced — the operands do share a pixel; it is refused when overlap is
+enforced and no pixel is shared. (The remaining refusal is `_merge`'s own corner, `mergeZ_defined_iff`.) -/
+theorem merge_public_emb [AddZeroClass K] (a b : ZFld K) (enforce : Bool)
+    (ha : 0 < a.fld.arr.s0 ∧ 0 < a.fld.arr.s1) (hb : 0 < b.fld.arr.s0 ∧ 0 < b.fld.arr.s1) :
+    (∀ p, mergePublic a b enforce = some p →
+      (enforce = true → ∃ r c, a.fld.extent.mem r c ∧ b.fld.extent.mem r c) ∧
+      ∀ r c, p.fld.emb r c = a.fld.emb r c + b.fld.emb r c) ∧
+    ((enforce = true ∧ ¬ ∃ r c, a.fld.extent.mem r c ∧ b.fld.extent.mem r c) → mergePublic a b enforce = none) := by
+  have hiff := intersect_iff a.fld.extent b.fld.extent (a.fld.extent_valid ha) (b.fld.extent_valid hb)
+  rw [mergePublic_eq]
+  constructor
+  · intro p hp
+    by_cases hc : enforce = true ∧ intersect a.fld.extent b.fld.extent = false
+    · rw [if_pos hc] at hp; cases hp
+    · rw [if_neg hc] at hp
+      refine ⟨fun he => ?_, fun r c => ?_⟩
+      · rw [← hiff]
+        cases hi : intersect a.fld.extent b.fld.extent with
+        | true => rfl
+        | false => exact absurd ⟨he, hi⟩ hc
+      · have := (mergeZ_spec [a, b] (by simp) (by
+          intro z hz; simp only [List.mem_cons, List.not_mem_nil, or_false] at hz
+          rcases hz with rfl | rfl
+          · exact ha
+          · exact hb) p hp).2 r c
+        rw [this]; simp [sumList]
+  · rintro ⟨he, hno⟩
+    rw [← hiff] at hno
+    have : intersect a.fld.extent b.fld.extent = false := by simpa using hno
+    rw [if_pos ⟨he, this⟩]
 
-/-- public `overlap` of exactly two fields is the extent test (`intersect_iff`: a common pixel exists) -/
-theorem overlap_two (a b : Fld K) : overlapL [a, b] = intersect a.extent b.extent := rfl
+/-- **public `overlap` of exactly two fields**: true iff they share a pixel of the plane -/
+theorem overlap_two_iff (a b : Fld K) (ha : 0 < a.arr.s0 ∧ 0 < a.arr.s1) (hb : 0 < b.arr.s0 ∧ 0 < b.arr.s1) :
+    overlapL [a, b] = true ↔ ∃ r c, a.extent.mem r c ∧ b.extent.mem r c := by
+  rw [overlapL_two]; exact intersect_iff a.extent b.extent (a.extent_valid ha) (b.extent_valid hb)
 
-/-- public `overlap` of any other number of fields: true iff `reduce` leaves at most one field -/
-theorem overlap_many [Add K] [Zero K] (fs : List (Fld K)) (h : fs.length ≠ 2) :
-    overlapL fs = decide ((reduce fs).length ≤ 1) := by
-  rw [reduce_eq, List.length_map]
-  unfold overlapL
-  split
-  · simp at h
-  · rfl
+/-- **public `overlap` of any other number of fields**: when it says `True`, `reduce` returns at most one field and that
+field carries the whole collection (its embedding is the sum of all inputs at every pixel); when it says `False`,
+`reduce` returns at least two fields, no two of which share a pixel (`reduce_pairwise_disjoint`) -/
+theorem overlap_many_spec [AddCommMonoid K] (fs : List (Fld K)) (hn : fs.length ≠ 2)
+    (hpos : ∀ f ∈ fs, 0 < f.arr.s0 ∧ 0 < f.arr.s1) (out : List (Fld K)) (hout : reduce fs = out.map some) :
+    (overlapL fs = true → out.length ≤ 1 ∧ ∀ p ∈ out, ∀ r c, p.emb r c = sumList fs (fun f => f.emb r c)) ∧
+    (overlapL fs = false → 2 ≤ out.length) := by
+  have hlen : out.length = (reduce fs).length := by rw [hout, List.length_map]
+  rw [overlapL_many fs hn]
+  constructor
+  · intro h
+    have h1 : out.length ≤ 1 := by rw [hlen]; simpa using h
+    refine ⟨h1, fun p hp r c => ?_⟩
+    have ht := reduce_total fs hpos out hout r c
+    match out, h1, hp with
+    | [q], _, hp =>
+      simp only [List.mem_singleton] at hp; subst hp
+      rw [← ht]; simp [sumList]
+  · intro h
+    rw [hlen]; simp only [decide_eq_false_iff_not, not_le] at h; omega
 
 example : overlapL [Ex.A, Ex.B] = true ∧ overlapL [Ex.A, Ex.C] = false ∧ overlapL [Ex.A, Ex.B, Ex.D] = true ∧
     overlapL [Ex.A, Ex.C, Ex.B] = false ∧ overlapL [Ex.A] = true := by decide
@@ -569,6 +676,19 @@ theorem reduceZ_all0d_total (zs : List (ZFld K)) (hpos : ∀ z ∈ zs, 0 < z.fld
       (∀ r c, sumList out (fun z => z.fld.emb r c) = sumList zs (fun z => z.fld.emb r c)) ∧
       (∀ i j (hij : i < j) (hj : j < out.length), intersect (out[i]'(by omega)).fld.extent out[j].fld.extent = false) := by
   obtain ⟨out, hout⟩ := exists_eq_map_some (reduceZ zs) (reduceZ_all0d_defined zs hz)
+  exact ⟨out, hout, fun r c => reduceZ_total zs hpos out hout r c,
+    fun i j hij hj => reduceZ_disjoint zs hpos out hout i j hij hj⟩
+
+/-- **0-d aware reduce, unconditionally, from the inputs alone**: positive shapes and either at most one input on the
+origin pixel or every input on the origin pixel 0-d (the only excluded inputs are those where a (1, 1) array meets
+another one-element field at the origin, where NumPy raises): a list of fields, pairwise non-overlapping, total preserved -/
+theorem reduceZ_spec (zs : List (ZFld K)) (hpos : ∀ z ∈ zs, 0 < z.fld.arr.s0 ∧ 0 < z.fld.arr.s1)
+    (h : ((zs.map fun z => z.fld).filter fun f => decide (f.extent = ⟨0, 0, 0, 0⟩)).length ≤ 1 ∨
+         ∀ z ∈ zs, z.fld.extent = ⟨0, 0, 0, 0⟩ → z.zd = true) :
+    ∃ out : List (ZFld K), reduceZ zs = out.map some ∧
+      (∀ r c, sumList out (fun z => z.fld.emb r c) = sumList zs (fun z => z.fld.emb r c)) ∧
+      (∀ i j (hij : i < j) (hj : j < out.length), intersect (out[i]'(by omega)).fld.extent out[j].fld.extent = false) := by
+  obtain ⟨out, hout⟩ := exists_eq_map_some (reduceZ zs) (reduceZ_isSome_of_inputs zs hpos h)
   exact ⟨out, hout, fun r c => reduceZ_total zs hpos out hout r c,
     fun i j hij hj => reduceZ_disjoint zs hpos out hout i j hij hj⟩
 
